@@ -1,5 +1,5 @@
 (* Wire interface of Model/CoreRw.v (dispatch numbers 90-96). *)
-From DD Require Import Base.Wire Model.Smtlib Model.Rewrites Model.CoreRw Run.RwWire.
+From DD Require Import Base.Wire Model.Smtlib Model.Rewrites Model.CoreRw Model.LetRw Run.RwWire.
 Local Open Scope list_scope.
 
 Definition r_gs (w : wire) : sexp -> option sexp :=
@@ -17,6 +17,7 @@ Definition dispatch_core (f : Z) (w : wire) : wire :=
   | 93, WL [t] => w_olist (rw_sort_children (r_sexp t))
   | 94, WL [t] => w_olist (rw_binary_reduction (r_sexp t))
   | 95, WL [t] => w_olist (rw_let_elim (r_sexp t))
+  | 97, WL [t] => w_olist (rw_let_subst (r_sexp t))
   | 96, WL [name; vars] => WL (map w_str (ssn_names (r_isvar vars) (r_str name)))
   | _, _ => w_err
   end%Z.
